@@ -1,4 +1,5 @@
 import AcqVerif.Storage.HalInv
+import AcqVerif.Storage.WriteFailure
 /-!
 # C16 — storage I/O failures are contained and reported; only owned descriptors are used
 
@@ -233,6 +234,69 @@ theorem C16_failure_is_reported (s : Sys) (fs : List Frame) :
             · simp [hne] at h
         | trash t =>
           exact ⟨[], by simp [Dev.append], fun _ => NoFail.nil⟩
+
+/-- **Any write failure is reported** — in the code's own sense of "a write failed": `file_write`
+    returned 0, be it for an error return of `pwrite` or because three `pwrite`s wrote nothing
+    (the ghost counter `wfails` counts exactly these, `fileWrite_wfails`).  For every state and every
+    packet: if `file_write` fails anywhere inside `storage_append`, the device is not Running when the
+    append returns and the HAL reports `Device_Err`. -/
+theorem C16_write_failure_is_reported (s : Sys) (fs : List Frame)
+    (h : (step s (.append fs)).1.os.wfails ≠ s.os.wfails) :
+    (step s (.append fs)).1.dev.state ≠ .running ∧ (step s (.append fs)).2 ≠ .ok := by
+  suffices hs : ((step s (.append fs)).1.dev.state = .running ∨ (step s (.append fs)).2 = .ok) →
+      (step s (.append fs)).1.os.wfails = s.os.wfails by
+    constructor
+    · intro hr; exact h (hs (Or.inl hr))
+    · intro hr; exact h (hs (Or.inr hr))
+  unfold step
+  split
+  · intro _; rfl
+  · simp only
+    unfold storageAppend
+    split
+    · intro _; rfl
+    · split
+      · intro _; rfl
+      · cases hdev : s.dev with
+        | raw r =>
+          simp only [Dev.append, Dev.setState, Dev.state]
+          intro hr
+          apply rawAppend_wfails
+          rcases hr with hr | hr
+          · exact hr
+          · by_cases hne : (rawAppend s.os r (packetBytes fs)).2.2 = .running
+            · exact hne
+            · simp [hne] at hr
+        | tiff t =>
+          simp only [Dev.append, Dev.setState, Dev.state]
+          intro hr
+          apply tiffAppend_wfails
+          rcases hr with hr | hr
+          · exact hr
+          · by_cases hne : (tiffAppend s.os t (fs.map Frame.io)).2.2 = .running
+            · exact hne
+            · simp [hne] at hr
+        | sxs x =>
+          simp only [Dev.append, Dev.setState, Dev.state]
+          intro hr
+          apply sxsAppend_wfails
+          rcases hr with hr | hr
+          · exact hr
+          · by_cases hne : (sxsAppend s.os x (fs.map Frame.io)).2.2 = .running
+            · exact hne
+            · simp [hne] at hr
+        | trash t => intro _; rfl
+
+/-- non-vacuity: three `pwrite`s that write nothing exhaust the retry budget: no call returned an error,
+    yet a write failure is counted, the device stops, closes its file and reports an error -/
+example :
+    let s : Sys := { os := { oracle := fun _ => .zero, pick := fun _ => 3, fds := [(3, [97])] },
+                     dev := .raw { state := .running, isOpen := true, fid := 3 } }
+    (step s (.append [{ bytes := [1] }])).1.os.log =
+      [.pwrite 3 0 1 (some 0), .pwrite 3 0 1 (some 0), .pwrite 3 0 1 (some 0), .close 3 true] ∧
+    (step s (.append [{ bytes := [1] }])).1.os.wfails = 1 ∧ (step s (.append [{ bytes := [1] }])).2 = .err := by
+  simp [step, Op.wf, storageAppend, Dev.state, packetBytes, Dev.append, rawAppend, fileWrite, fileWriteLoop,
+    sysPwrite, pwriteCount, rawStop, fileClose, sysClose, Dev.setState, Os.fdKeys, List.lookup]
 
 /-- non-vacuity: a running raw device whose `pwrite` fails — the premise holds, the device stops and closes -/
 example :
